@@ -21,7 +21,7 @@ Worse(a, b) == IF Rank(b) > Rank(a) THEN b ELSE a
 
 Reset(w) == LET s == State0(w)
             IN /\ world = s.world /\ phase = s.phase /\ err = s.err /\ hasNumbers = s.hasNumbers
-               /\ bad = s.bad /\ invalidSeen = s.invalidSeen /\ decls = << >>
+               /\ bad = s.bad /\ invalidSeen = s.invalidSeen /\ decls = << >> /\ opts = "default"
 
 Valid(e) == IF e.kind = "market" THEN WellFormedMarket([cand |-> e.cand, named |-> e.named, rule |-> e.rule])
             ELSE e.valid
@@ -41,7 +41,7 @@ TraceNext ==
     /\ l' = l + 1
     /\ LET e == Log[l] IN
        \/ /\ e.ev = "Begin"
-          /\ SetS(State0(e.world)) /\ UNCHANGED << decls, verdict, obsErr, obsNum >>
+          /\ SetS(State0(e.world)) /\ opts' = e.opts /\ UNCHANGED << decls, verdict, obsErr, obsNum >>
        \/ /\ e.ev = "Declare"
           \* a configured market is classified by the spec (WellFormedMarket), not by the driver
           /\ SetS(IF phase # "declaring" THEN S
@@ -54,16 +54,16 @@ TraceNext ==
                               ELSE IF Valid(e) /\ e.raised THEN D("valid_rejected")
                               ELSE IF ~Valid(e) /\ (e.raised # (e.kind \in Immediate)) THEN D("reject_point")
                               ELSE Ok)
-          /\ UNCHANGED << decls, obsNum >>
+          /\ UNCHANGED << decls, obsNum, opts >>
        \/ /\ e.ev = "Main"
           /\ SetS(IF phase = "declaring" THEN MainOp(S) ELSE S)
           /\ obsErr' = (obsErr \/ e.raised)
           /\ obsNum' = (obsNum \/ e.numbers)
-          /\ UNCHANGED << decls, verdict >>
+          /\ UNCHANGED << decls, verdict, opts >>
        \/ /\ e.ev = "End"
           /\ PrintT(<< "VERDICT", e.tid, Final.kind \o ":" \o Final.clause >>)
           /\ SetS(State0("block")) /\ verdict' = Ok /\ obsErr' = FALSE /\ obsNum' = FALSE
-          /\ UNCHANGED decls
+          /\ UNCHANGED << decls, opts >>
 
 TraceSpec == TraceInit /\ [][TraceNext]_tvars
 
